@@ -943,6 +943,7 @@ func runC20(c *Ctx) {
 	if st := pathFn(c, p, "onDemandPublisherStop"); st != nil {
 		c.callThenClear(p, st, "C20.demand.call_then_clear", "onUnDemandHook")
 	}
+	c20InitialAfterStop(c, p)
 	// onDemandPublisherStop is reached only from the two timer handlers (armed only while the hook is open)
 	stopCallers := map[string]bool{corePath + "doOnDemandPublisherReadyTimer": true, corePath + "doOnDemandPublisherCloseTimer": true}
 	timerArm := map[string]string{"onDemandPublisherReadyTimer": corePath + "onDemandPublisherStart", "onDemandPublisherCloseTimer": corePath + "onDemandPublisherScheduleClose"}
